@@ -79,6 +79,10 @@ def ens_send_ackpl(self, old_self, result, exc, send_only):
     if exc is not None:
         return False
     got = hw.ack_rx > ohw.ack_rx
+    if send_only:
+        # send_only: the outcome is a bool and the RX FIFO is not manipulated (it only grows by
+        # the ACK payloads that arrive)
+        return isinstance(result, bool) and hw.rx_n == ohw.rx_n + (hw.ack_rx - ohw.ack_rx)
     if got and not send_only:
         return (not isinstance(result, bool)) and result is not None and bytes(result) == hw.ackpl[:len(result)]
     if not got and _ok(result):
